@@ -253,7 +253,11 @@ ExhScript ==
 Corpus == <<
    (* KF-search-wordctx: /\<bar with the cursor inside "foobar" *)
    << Ins(<<102,111,111,98,97,114,32,98,97,114>>), MotC("0", 0), MotC("l", 2),
-      [k |-> "mot", m |-> [k |-> "/", ch |-> 0, re |-> <<92,60,98,97,114>>, so |-> 0], c1 |-> 0, reg |-> 0] >> >>
+      [k |-> "mot", m |-> [k |-> "/", ch |-> 0, re |-> <<92,60,98,97,114>>, so |-> 0], c1 |-> 0, reg |-> 0] >>,
+   (* fixed: 5N with a pattern matching the empty string over a line that is one multi-byte character *)
+   << Ins(<<120,10,91,10,28450,10,32,97,97,99,10,98>>), MotC("G", 0), MotC("0", 0),
+      [k |-> "mot", m |-> [k |-> "?", ch |-> 0, re |-> <<97,42>>, so |-> 0], c1 |-> 0, reg |-> 0],
+      MotC("G", 0), MotC("0", 0), MotC("N", 0), MotC("G", 0), MotC("0", 0), MotC("n", 4), MotC("G", 0), MotC("n", 5), MotC("G", 0), MotC("n", 9) >> >>
 RECURSIVE Fixed(_, _, _)
 Fixed(vs, cs, t) ==
     IF t > Len(cs) THEN <<>>
